@@ -884,6 +884,15 @@ func (te *TemplateEngine) cloneDocument(source *Document) *Document {
 	}
 	te.cloneAllDocumentParts(source, doc)
 
+	// 复制包级关系（_rels/.rels：文档属性、缩略图、自定义属性等），否则保存时会被默认关系覆盖
+	if source.relationships != nil {
+		doc.relationships = &Relationships{
+			Xmlns:         source.relationships.Xmlns,
+			Relationships: make([]Relationship, len(source.relationships.Relationships)),
+		}
+		copy(doc.relationships.Relationships, source.relationships.Relationships)
+	}
+
 	// 复制文档关系（包含页眉页脚引用）
 	if source.documentRelationships != nil {
 		doc.documentRelationships = &Relationships{
